@@ -145,6 +145,37 @@ func H15_add() {
 	nd.Assert(len(db.Cur.Keys) <= len(model), "add:no-extra-keys")
 }
 
+//verif:harness H15_big property=C15 native=no quick=n=65536 thorough=n=70000
+
+// H15_big: values of any length: a value whose length needs more than 16 bits (n bytes, the last
+// one solver-chosen) is stored next to a short one and both are read back.
+func H15_big() {
+	n := nd.Param("n")
+	db := NewVerifDB()
+	r := VerifNewRDB(db, false)
+	key := []byte("k")
+	big := make([]byte, n)
+	for i := range big {
+		big[i] = byte(i * 7)
+	}
+	big[n-1] = nd.Byte()
+	small := []byte{nd.Byte()}
+	nd.Assert(r.Add(key, big) == nil, "add-big")
+	nd.Assert(r.Add(key, small) == nil, "add-small")
+	var got [][]byte
+	err := r.ForEach(key, func(v []byte) error { got = append(got, verifCopy(v)); return nil }, NewContext())
+	nd.Assert(err == nil, "big:foreach-ok")
+	nd.Assert(len(got) == 2, "big:two-values")
+	nd.Assert(len(got[0]) == n && got[0][n-1] == big[n-1] && got[0][0] == big[0] && got[0][n/2] == big[n/2], "big:long-value-read-back")
+	nd.Assert(len(got[1]) == 1 && got[1][0] == small[0], "big:short-value-read-back")
+	first, ferr := r.Find(key, NewContext())
+	nd.Assert(ferr == nil && len(first) == n, "big:find-first")
+	nd.Assert(r.Del(key, big) == nil, "big:del-long-value")
+	got = nil
+	err = r.ForEach(key, func(v []byte) error { got = append(got, verifCopy(v)); return nil }, NewContext())
+	nd.Assert(err == nil && len(got) == 1 && got[0][0] == small[0], "big:short-value-left")
+}
+
 // H15_del: Del removes exactly one equal value, or fails without effect.
 func H15_del() {
 	model, db := verifPreState(nd.Param("l0"), nd.Param("l1"), nd.Param("maxv"))
